@@ -28,8 +28,8 @@ from common import sx, cps, parse_sx, err_name
 import fix_common as fc
 import vloop
 
-DRIVER = 'drv_C13'
-HISTORY_OP = False
+DRIVER = 'drv_C14'          # Drv/C14.lean: the handlers of drv_C13 (Driver/Fix.lean) + message-object histories (Driver/FixObj.lean)
+HISTORY_OP = True
 KNOWN_LOCAL = []
 SOH = b'\x01'
 VERSIONS = {'44': 'FIX.4.4', '50': 'FIXT.1.1'}
@@ -375,6 +375,52 @@ def edit_sx(ed):
     return head
 
 
+def edit_from_sx(p, r=0):
+    """an edit as the model prints it (`fix.witness.resend`)"""
+    ed = {'op': p[0], 'seg': p[1], 'path': [[int(t), int(i)] for t, i in p[2]], 'tag': int(p[3]), 'r': r}
+    if p[0] == 'set':
+        ed['val'] = fc.val_from_parsed(p[4])
+    elif p[0] == 'append':
+        ed['inst'] = fc.seg_from_parsed(p[4])
+    elif p[0] in ('insert', 'replace'):
+        ed['idx'], ed['inst'] = int(p[4]), fc.seg_from_parsed(p[5])
+    elif p[0] == 'delete':
+        ed['idx'] = int(p[4])
+    return ed
+
+
+def witness_plans(ctx):
+    """the re-send histories of Props/C14Resend.lean / Witness/C14Resend.lean, printed by the driver from the Lean terms themselves,
+    as sessions: the implementation must write the frames the model's `run` gives (and not those of the remembered-bytes variant)"""
+    if not ctx.driver.available:
+        return []
+    try:
+        parts = parse_sx(ctx.driver.ask(['fix.witness.resend'])[0])
+        ver, sess, m = fc.txt(parts[0]), parts[2], fc.msg_from_parsed(parts[3])
+        v = {b: a for a, b in VERSIONS.items()}[ver]
+        plans = []
+        for n, ops in enumerate(parts[4:]):
+            d = dict(fc.mdef_from_parsed(parts[1]), name=fc.fresh_name())
+            mdefs = [{'name': fc.fresh_name('Logon'), 'type': 'A', 'hdr': d['hdr'], 'body': [('f', 553, 'string', False)], 'trl': d['trl']},
+                     {'name': fc.fresh_name('Heartbeat'), 'type': '0', 'hdr': d['hdr'], 'body': [], 'trl': d['trl']}, d]
+            sends, edits, first = [], [], None
+            for j, op in enumerate(ops):
+                if op[0] != 'send':
+                    edits.append(edit_from_sx(op, r=7 * n + j))
+                    continue
+                assert sends or not edits
+                sends.append([d, copy.deepcopy(m), None, None] if not sends else [d, None, None, {'of': 0, 'edits': edits}])
+                first, edits = (int(op[1]) if first is None else first), []
+            logon = {'hdr': [(49, ('s', fc.txt(sess[3]))), (56, ('s', fc.txt(sess[2]))), (50, ('s', fc.txt(sess[1]))), (34, ('i', first - 1))],
+                     'body': [], 'trl': []}
+            plans.append({'mdefs': mdefs, 'v': v, 'logon': logon, 'sends': sends, 'bad': [], 'hb_wait': 0.0, 'nseg': 3})
+            ctx.count('witness-history')
+        return plans
+    except Exception as e:  # noqa
+        ctx.notes.append(f'witness histories not available from the driver: {err_name(e)}')
+        return []
+
+
 def edit_text(ed):
     where = ed['seg'] + ''.join(f'[{t}][{i}]' for t, i in ed['path'])
     if ed['op'] == 'set':
@@ -427,6 +473,13 @@ def structural_check(frame, ver, ty):
     if int(tail[3:6]) != sum(frame[:body_start + n]) % 256:
         return f'CheckSum {tail[3:6]!r} != byte sum of everything before it mod 256 = {sum(frame[:body_start + n]) % 256}'
     return None
+
+
+def diff_at(got, exp, ctx_bytes=40):
+    """the neighbourhood of the first byte in which two frames differ"""
+    n = next((i for i, (a, b) in enumerate(zip(got, exp)) if a != b), min(len(got), len(exp)))
+    lo = max(0, n - ctx_bytes)
+    return f'first difference at byte {n}: got …{got[lo:n + ctx_bytes]!r}… expected …{exp[lo:n + ctx_bytes]!r}… (lengths {len(got)} / {len(exp)})'
 
 
 def time_of(frame):
@@ -591,7 +644,12 @@ def run(ctx):
     ctx.cov['rule'] = ('sessions (Fix44Session / Fix50Session) x generated dictionaries (standard header, random bodies with nested groups) x '
                        'logon MsgSeqNum chosen next to 9/99/999/… x comp-id lengths x user messages (padding chosen so that BodyLength '
                        'lands on 99/100/999/1000/9999/10000, large group payloads) x automatic heartbeats; every written frame is one case; '
-                       'distinct = distinct frame bytes; read back under random segmentations (incl. byte by byte)')
+                       'distinct = distinct frame bytes; read back under random segmentations (incl. byte by byte); '
+                       're-send histories (45% of the sessions over dictionaries with groups nested 2-3 deep, now and then elsewhere): one '
+                       'message object sent 2-6 times with 0-3 in-place edits before each re-send — set / pop a field, assign a whole group '
+                       'list, append / insert / replace / delete an instance — at depth 0 (header, body, trailer), 1, 2, 3 (depth drawn '
+                       'uniformly), other objects sent in between; every frame judged against a deep image of the object taken at that send '
+                       'and against the harness\' own simulation of the edits; the Lean witness histories (fix.witness.resend) run first')
     corpus = []
     cdir = os.path.join(common.VERIF, 'corpus', 'C14')
     if os.path.isdir(cdir):
@@ -599,7 +657,7 @@ def run(ctx):
             if f.endswith('.json'):
                 corpus.append(json.load(open(os.path.join(cdir, f))))
     plans = [plan_from_replay(c) for c in corpus if c.get('kind') == 'session']
-    run_plans(ctx, rng, plans)                          # corpus first (in this process)
+    run_plans(ctx, rng, plans + witness_plans(ctx))     # corpus and the Lean witness histories first (in this process)
     per = 40 if quick else 200                          # sessions per fresh worker process
     payloads = [{'count': min(per, n_dict - s0), 'quick': quick} for s0 in range(0, n_dict, per)]
     fc.run_chunks(ctx, 'c14', payloads)
@@ -754,9 +812,9 @@ def reductions(plan, k):
 
 def fewer_edits(plan):
     """the last re-send of a reduced plan with one edit left out, for every edit"""
-    it = plan['sends'][-1]
-    if it[3] is None:
+    if not plan['sends'] or plan['sends'][-1][3] is None:
         return []
+    it = plan['sends'][-1]
     eds = it[3]['edits']
     return [dict(plan, sends=plan['sends'][:-1] + [[it[0], None, None, dict(it[3], edits=eds[:j] + eds[j + 1:])]])
             for j in range(len(eds))]
@@ -798,10 +856,16 @@ def run_plan(ctx, rng, plan, pending):
         except Exception:  # noqa
             return None
         return [x for x in f2 if x[1].get('finding') == finding] or None
-    for cand in reductions(plan, k):
+    for cand in (reductions(plan, k) if len(getattr(ctx, 'violations', ())) < 3 else []):     # the first few are worth the time
         same = probe(cand)
         if same:
             found = same + [x for x in found if x[1].get('finding') != finding]
+            if any(it[2] is not None for it in cand['sends']):          # without the padding towards a BodyLength boundary
+                c2 = dict(cand, sends=[[it[0], it[1], None, it[3]] for it in cand['sends']])
+                s2 = probe(c2)
+                if s2:
+                    cand, found = c2, s2 + found[len(same):]
+                    same = s2
             for _ in range(6):                      # leave out edits the finding does not need
                 for c2 in fewer_edits(cand):
                     s2 = probe(c2)
@@ -893,6 +957,11 @@ def run_plan_inner(ctx, rng, plan, pending, found):
             history[root].append(['send', seq, cps(time)])
             carried.append((d, m))
         d, m = carried[k] if k < n_user else (hb_d, {'hdr': [], 'body': [], 'trl': []})
+        origin = ''
+        if root is not None and sends[k - 1][2] is not None:
+            eds = sends[k - 1][2]['edits']
+            origin = (f' (the message object of frame {root + 1} sent again after ' +
+                      ('; '.join(edit_text(e)[:120] for e in eds[:3]) if eds else 'no change') + (' …' if len(eds) > 3 else '') + ')')
         st = stamped(d, m, sess, seq, time)
         if root is not None:
             holds[root] = st
@@ -907,8 +976,8 @@ def run_plan_inner(ctx, rng, plan, pending, found):
             found.append((f'frame {k} ({d["type"]}): {why}', dict(rep, finding='frame-shape')))
         ref = ref_frame(ver, d, st)
         if frame != ref:
-            found.append((f'frame {k} differs from the independent recomputation: got {frame[:90]!r} expected {ref[:90]!r}',
-                   dict(rep, finding='frame-bytes')))
+            found.append((f'frame {k}{origin} differs from the independent recomputation: {diff_at(frame, ref)}',
+                          dict(rep, finding='frame-bytes')))
         j = frame.find(SOH, len(b'8=' + ver.encode() + SOH))
         digits = frame[len(b'8=' + ver.encode() + SOH) + 2:j]
         if digits.isdigit():
@@ -938,8 +1007,8 @@ def run_plan_inner(ctx, rng, plan, pending, found):
                 # ---- the frame against the message AS IT WAS at this send (the deep image, not the harness' simulation)
                 ref2 = ref_frame(ver, d, coll)
                 if frame != ref2 and ref2 != ref:
-                    found.append((f'frame {k} does not carry what the message object held when it was sent: got {frame[:90]!r} expected '
-                                  f'{ref2[:90]!r}', dict(rep, finding='frame-bytes')))
+                    found.append((f'frame {k}{origin} does not carry what the message object held when it was sent: {diff_at(frame, ref2)}',
+                                  dict(rep, finding='frame-bytes')))
             except Exception as e:  # noqa
                 found.append((f'frame {k}: as_collection of the sent message raised {err_name(e)}', dict(rep, finding='stamping')))
     # ---- the model on whole object histories: first message, edits and sends in order -> the frames of that object, what it holds
@@ -952,6 +1021,7 @@ def run_plan_inner(ctx, rng, plan, pending, found):
         line = f'fix.resend {sx(cps(ver))} {md_sx[d["name"]]} {sess_sx} {sx(fc.msg_sx(h[0]))} {sx(h[1:])}'
         exp = 'ok (' + ' '.join(sx(good_frames[k]) for k in ks) + ') ' + sx(fc.msg_sx(holds[root]))
         pending.append((line, exp, f'fix.resend (object of send {root + 1}: {len(ks)} sends)', dict(rep_base, frame_index=ks[-1])))
+        ctx.count('model:fix.resend:%d-sends' % min(len(ks), 5))
     # ---- sends that must fail (agreement only)
     for (d, m, kind), oc in zip(plan['bad'], res['bad_outcomes']):
         ctx.count(f'bad-send:{kind}:{oc[0]}')
